@@ -52,6 +52,13 @@ func c05Scenario(p c05P, b Bounds) *Scenario {
 					OnStop:   func(_ *jrpc2.Client, err error) { vs.Event("hook", "OnStop", errStr(err)) },
 					OnCallback: func(ctx context.Context, r *jrpc2.Request) (any, error) {
 						vs.Event("hook", "OnCallback", "enter")
+						if r.Method() == "upcall" {
+							// the handler makes a call of its own with a context that is not the handler's:
+							// only the client stopping can end it (the peer never answers "up")
+							_, err := h.cli.Call(context.Background(), "up", nil)
+							vs.Yield("upcall-ret")
+							vs.Note("upcall-ret", errStr(err))
+						}
 						if r.Method() == "gated" {
 							// a handler that does not return promptly when its context ends: released only
 							// when nothing else can move (in particular while a correct Close is waiting for it)
@@ -145,6 +152,11 @@ func c05Scenario(p c05P, b Bounds) *Scenario {
 						j.Go("callback", func() {
 							vs.Event("env", "callback")
 							peer.Send([]byte(`{"jsonrpc":"2.0","id":"cb1","method":"srvcall"}`))
+						})
+					case "ucallback":
+						j.Go("ucallback", func() {
+							vs.Event("env", "callback")
+							peer.Send([]byte(`{"jsonrpc":"2.0","id":"cb3","method":"upcall"}`))
 						})
 					case "gcallback":
 						j.Go("gcallback", func() {
@@ -526,7 +538,7 @@ func c05Scenarios(tier string) []*Scenario {
 			}
 		}
 	}
-	pairs := [][]string{{"gcallback", "eof"}, {"gcallback", "close"}, {"gcallback", "recverr"}, {"gcallback", "malformed"}, {"reply", "cancel"}, {"reply", "close"}, {"cancel", "close"}, {"reply", "eof"}, {"reply", "deadline"}, {"close", "eof"},
+	pairs := [][]string{{"ucallback", "close"}, {"ucallback", "eof"}, {"gcallback", "eof"}, {"gcallback", "close"}, {"gcallback", "recverr"}, {"gcallback", "malformed"}, {"reply", "cancel"}, {"reply", "close"}, {"cancel", "close"}, {"reply", "eof"}, {"reply", "deadline"}, {"close", "eof"},
 		{"reply", "recverr"}, {"cancel", "malformed"}, {"callback", "close"}, {"sendfault", "close"}, {"reply", "callback"}, {"deadline", "close"}}
 	for _, pr := range pairs {
 		if q {
@@ -748,6 +760,42 @@ func c10ClientCallbacks(n int, batch, caller, closeRace bool, b Bounds) *Scenari
 				j.Wait()
 				vs.AwaitQuiescence()
 				c.Close()
+			}
+			check := func(x *vs.Exec) []Viol {
+				v := genericRules(x, nil)
+				return append(v, disciplineRules(x, "cli", 1)...)
+			}
+			return &Instance{Body: body, Check: check}
+		},
+	}
+}
+
+// c10ClientRecvErr: the client's connection ends by a Recv error of the given kind while a call is
+// pending; the application then closes the client. The channel must have been closed exactly once.
+func c10ClientRecvErr(kind string, b Bounds) *Scenario {
+	return &Scenario{
+		Name:   "client recv-error=" + kind + " with a call pending, then Close",
+		Params: map[string]any{"recv_error": kind},
+		Bounds: b,
+		New: func() *Instance {
+			body := func() {
+				lib, peer, pipe := NewPipe(PipeOpts{Name: "cli", CloseUnblocksRecv: true, Monitor: true})
+				c := jrpc2.NewClient(lib, nil)
+				var j Join
+				j.Go("m0", func() { c.Call(context.Background(), "m0", nil) })
+				vs.GoNamed("peer", func() {
+					for {
+						if _, ok := peer.Recv(); !ok {
+							return
+						}
+					}
+				})
+				vs.AwaitQuiescence()
+				pipe.FailRecv = recvErrOf(kind)
+				j.Wait()
+				vs.AwaitQuiescence()
+				c.Close()
+				peer.Close()
 			}
 			check := func(x *vs.Exec) []Viol {
 				v := genericRules(x, nil)
